@@ -136,8 +136,17 @@ class GotranODECodePrinter(BaseGotranODECodePrinter):
         return text
 
     def print_assignments(self) -> str:
+        # A definition that is repeated in several components is written
+        # in each of them (ode.intermediates only contains one of them)
+        assignments: dict[tuple[bool, str, tuple[str, ...]], atoms.Assignment] = {}
+        for component in self.ode.components:
+            for i in component.intermediates | component.state_derivatives:
+                is_derivative = isinstance(i, atoms.StateDerivative)
+                assignments.setdefault((is_derivative, i.name, i.components), i)
+
         d: dict[tuple[str, ...], list[atoms.Assignment]] = defaultdict(list)
-        for i in self.ode.intermediates + self.ode.state_derivatives:
+        for key in sorted(assignments):
+            i = assignments[key]
             d[i.components].append(i)
 
         text = ""
